@@ -79,6 +79,12 @@ pub fn op_iter(d: &[u8]) -> String {
         s.push(' ');
         s.push_str(&f);
     }
+    // polled twice more after it ran dry
+    let e1 = (&mut it).next().is_some();
+    let c1 = it.consumed();
+    let e2 = (&mut it).next().is_some();
+    let c2 = it.consumed();
+    s.push_str(&format!(" | {}:{} {}:{}", c1, e1, c2, e2));
     s
 }
 
@@ -263,6 +269,16 @@ pub fn oracle_iter(d: &[u8]) -> String {
         if guard > d.len() + 1 {
             return "FAIL iterator does not terminate".into();
         }
+    }
+    let dry_ok = {
+        // an iterator that ran dry stays dry and its consumed() does not move, however often it is polled
+        let c0 = it.consumed();
+        let a = (&mut it).next().is_none() && it.consumed() == c0;
+        let b = (&mut it).next().is_none() && it.consumed() == c0;
+        a && b && c0 <= d.len()
+    };
+    if !dry_ok {
+        return format!("FAIL C05 polling the iterator again after it returned None changes consumed() or yields a frame: {}", op_iter(d));
     }
     if got == frames && it.consumed() == idx {
         "PASS".into()
